@@ -92,3 +92,11 @@ Theorem C01_blocks_have_distinct_begins : forall bs l bl, 0 < bs -> BlocksProofs
   calc_blocks true bs l = Ok bl -> NoDup (map bbeg bl).
 Proof. exact calc_blocks_nodup. Qed.
 Print Assumptions C01_blocks_have_distinct_begins.
+
+(* the verifier (resume-time and on-demand hash check): a piece is marked only if every byte of it was
+   read from disk and equals the content; a read that hits the end of a file fails the verification *)
+Theorem C01_verifier_marks_only_good_pieces : forall np r bits, run_verifier (np :: r) = 0 :: bits ->
+  forall i, nth i bits 0 = 1 ->
+  exists s e, nth_error (firstn (Z.to_nat np) (ver_pairs r)) i = Some (s, e) /\ s = false /\ e = true.
+Proof. exact verifier_marks_only_good_pieces. Qed.
+Print Assumptions C01_verifier_marks_only_good_pieces.
